@@ -181,3 +181,57 @@ def anf_text(text, rel, fn_span, head, prefix, bind_root=False, nth=0, bind_oper
     log = {"rule": "R19-let-intro", "from": " ".join(sub[stmt_start:expr_end].split())[:160],
            "to": (" ".join(lets) + " " + " ".join((sub[stmt_start:expr_start] + root_txt).split()))[:200]}
     return text[:a] + new_sub + text[b:], log
+
+
+def mapfold_text(text, rel, fn_span, nth=0, prefix="mf"):
+    """R5 map/fold desugaring of one statement
+
+        let NAME = RECV.iter().map(G).fold(INIT, H);
+    ->  let vx_<p>g = G; let vx_<p>h = H; let mut vx_<p>acc = INIT;
+        for vx_<p>e in RECV.iter() { vx_<p>acc = vx_<p>h(vx_<p>acc, vx_<p>g(vx_<p>e)); } let NAME = vx_<p>acc;
+
+    which is the definition of Iterator::map / Iterator::fold (G and H are evaluated once, items in order)."""
+    a, b = fn_span
+    sub = text[a:b]
+    toks = lex(sub)
+    pairs = match_brackets(toks)
+    hits = []
+    for k in range(len(toks) - 3):
+        if toks[k].text == "." and toks[k + 1].text == "map" and toks[k + 2].text == "(":
+            c = pairs[k + 2]
+            if c + 3 < len(toks) and toks[c + 1].text == "." and toks[c + 2].text == "fold" and toks[c + 3].text == "(":
+                hits.append(k)
+    if len(hits) <= nth:
+        raise Undecided(f"anchor lost: no .map(..).fold(..) chain #{nth + 1} in {rel}")
+    k = hits[nth]
+    mc = pairs[k + 2]
+    fo = mc + 3
+    fc = pairs[fo]
+    if toks[fc + 1].text != ";":
+        raise Undecided(f"{rel}: .map().fold() chain is not the end of a statement")
+    # statement start: previous ; { }
+    s0 = k
+    while s0 > 0 and toks[s0 - 1].text not in (";", "{", "}"):
+        s0 -= 1
+    if toks[s0].text != "let":
+        raise Undecided(f"{rel}: .map().fold() chain is not a `let` initialiser")
+    eq = s0
+    while toks[eq].text != "=":
+        eq += 1
+    head = sub[toks[s0].start:toks[eq].end]                     # `let area =`
+    recv = sub[toks[eq + 1].start:toks[k - 1].end]              # `weights .iter()`
+    g = sub[toks[k + 3].start:toks[mc - 1].end]
+    # fold args: INIT , H
+    j = fo + 1
+    while toks[j].text != ",":
+        j = pairs[j] + 1 if toks[j].text in ("(", "[", "{") else j + 1
+    init = sub[toks[fo + 1].start:toks[j - 1].end]
+    h = sub[toks[j + 1].start:toks[fc - 1].end].rstrip().rstrip(",")
+    p = prefix
+    new = (f"let vx_{p}g = {g}; let vx_{p}h = {h}; let mut vx_{p}acc = {init}; "
+           f"for vx_{p}e in {recv} {{ vx_{p}acc = vx_{p}h(vx_{p}acc, vx_{p}g(vx_{p}e)); }} {head} vx_{p}acc;")
+    old = sub[toks[s0].start:toks[fc + 1].end]
+    pad = "\n" * max(0, old.count("\n") - new.count("\n"))
+    new_sub = sub[:toks[s0].start] + new + pad + sub[toks[fc + 1].end:]
+    log = {"rule": "R5-map-fold", "from": " ".join(old.split())[:160], "to": " ".join(new.split())[:220]}
+    return text[:a] + new_sub + text[b:], log
